@@ -78,15 +78,13 @@ func (c *Ctx) Check(rule, key string, pos token.Pos, ok bool, detail string, wit
 		if len(witness) > 0 {
 			o.Witness = strings.Join(witness, " ")
 		}
-	} else if detail != "" && len(c.samples) < 400 {
-		o.Detail = detail
 	}
 	c.Obs = append(c.Obs, o)
 	return ok
 }
 
 func (c *Ctx) Pass(rule, key string, pos token.Pos, detail string) {
-	c.Check(rule, key, pos, true, detail)
+	c.Obs = append(c.Obs, Ob{Rule: rule, Key: key, Pos: c.rel(pos), OK: true, Detail: detail})
 }
 
 func (c *Ctx) Fail(rule, key string, pos token.Pos, detail string, witness ...string) {
